@@ -356,6 +356,7 @@ func TestVerif(t *testing.T) {
 	}
 	c.Known = known
 	start := time.Now()
+	c.startWatchdog()
 
 	if rp := os.Getenv("VERIF_REPLAY"); rp != "" {
 		b, err := os.ReadFile(rp)
@@ -371,7 +372,13 @@ func TestVerif(t *testing.T) {
 			t.Fatalf("no replayer for %s", rf.Harness)
 		}
 		c.Harness, c.Mode, c.Tier, c.Property = rf.Harness, rf.Mode, rf.Tier, rf.Property
+		watch.mu.Lock()
+		watch.replay, watch.began, watch.seed, watch.caseJSON = &rf, time.Now(), rf.RunSeed, rf.Case
+		watch.mu.Unlock()
 		vs := fn(c, &rf)
+		watch.mu.Lock()
+		watch.began = time.Time{}
+		watch.mu.Unlock()
 		same := false
 		for _, v := range vs {
 			fmt.Printf("REPLAY-VIOLATION property=%s sig=%s\n%s\n", v.Property, v.Sig, v.Detail)
@@ -402,6 +409,12 @@ func TestVerif(t *testing.T) {
 			}()
 			fn(c)
 		}()
+	}
+	watch.mu.Lock()
+	watch.began = time.Time{}
+	watch.mu.Unlock()
+	if watch.curPath != "" {
+		_ = os.Remove(watch.curPath)
 	}
 	simrt.Deactivate()
 	res.WallS = time.Since(start).Seconds()
